@@ -204,7 +204,7 @@ func runCheck(args []string) {
 		}
 		if kf := isKnown(o.ID); kf != nil {
 			knownHit = append(knownHit, kf.text)
-			fmt.Printf("KNOWN-FINDING: property=%s %s\n", ps.ID, strings.TrimPrefix(kf.text, "finding: "))
+			fmt.Printf("KNOWN-FINDING: property=%s %s\n", ps.ID, strings.TrimPrefix(strings.TrimPrefix(kf.text, "finding: "), "property="+ps.ID+" "))
 			continue
 		}
 		nObl++
